@@ -2,12 +2,14 @@
 """False-alarm regression: apply each stored behaviour-preserving refactoring (refactorings/Cxx/rN.diff) to a scratch
 worktree of /repo (outside /repo and /verif, removed afterwards) and run the property's check: it must exit 0, except
 for the entries listed in refactorings/expected.json (known limits of the rules), which must still exit 1 -- so that the
-list is updated when a rule is generalised.  usage: tools/refac_check.py [Cxx ...] [--tier quick|thorough]"""
+list is updated when a rule is generalised.  usage: tools/refac_check.py [Cxx ...] [--tier quick|thorough] [--corpora name,name]"""
 import json, os, subprocess, sys, tempfile, shutil
 VERIF = os.path.dirname(os.path.dirname(os.path.abspath(__file__)))
-args = [a for a in sys.argv[1:] if not a.startswith('--')]
+args = [a for a in sys.argv[1:] if not a.startswith('--') and a.startswith('C') and len(a) == 3]
 tier = 'thorough' if '--tier' in sys.argv and sys.argv[sys.argv.index('--tier') + 1] == 'thorough' else 'quick'
 CORPORA = ['refactorings', 'refactorings2', 'refactorings3', 'refactorings4', 'refactorings5', 'refactorings6']
+if '--corpora' in sys.argv:         # e.g. --corpora refactorings5,refactorings6
+    CORPORA = [c for c in CORPORA if c in sys.argv[sys.argv.index('--corpora') + 1].split(',')]
 wt = tempfile.mkdtemp(prefix='refac-')
 os.rmdir(wt)
 subprocess.check_call(['git', '-C', '/repo', 'worktree', 'add', '--detach', '-q', wt, 'HEAD'])
